@@ -293,10 +293,28 @@ def enum_name_default_stage(ctx):
             m = re.search(r"define_scalar_field\(\d+, ED_T, x, \w+, \w+, (?:U?INT\d+_C\()?(-?\d+)", txt)
             if not m or int(m.group(1)) != v: return ("x:%s = %s.M with M = %d: the generated reader's default is %s" % (t, en, v, m.group(1) if m else "not found"), fbs)
         return None
+    # an ENUM-typed field whose default names a member of ANOTHER enum: the value must fit the field's enum type and be one of its members
+    def one_x(j):
+        k, v = j
+        name = "x_%d" % k
+        fbs = "namespace ED;\nenum A:byte { p = 1, q = 100, r = -3 }\nenum B:int { M = %d }\ntable T { f:A = B.M; }\n" % v
+        p = os.path.join(d, name + ".fbs"); open(p, "w").write(fbs)
+        od = os.path.join(d, name); os.makedirs(od, exist_ok=True)
+        rc, out, err = sh([flatcc, "-o", od, p], timeout=60)
+        ok = v in (1, 100, -3)
+        if rc < 0 or rc in (134, 139): return ("the compiler crashed (rc=%d) on f:A = B.M with M = %d" % (rc, v), fbs)
+        if rc == 0 and not ok: return ("f:A = B.M with B.M = %d is accepted although %d is not a value of enum A:byte { 1, 100, -3 }" % (v, v), fbs)
+        if rc != 0 and ok: return ("f:A = B.M with B.M = %d is rejected although A has a member with that value: %s" % (v, (out + err)[-200:]), fbs)
+        if rc == 0:
+            txt = open(os.path.join(od, name + "_reader.h")).read()
+            m = re.search(r"define_scalar_field\(\d+, ED_T, f, \w+, \w+, (?:U?INT\d+_C\()?(-?\d+)", txt)
+            if not m or int(m.group(1)) != v: return ("f:A = B.M with B.M = %d: the generated reader's default is %s" % (v, m.group(1) if m else "not found"), fbs)
+        return None
+    xjobs = list(enumerate([1, 100, -3, 0, 2, 127, 128, -128, -129, 255, 256, 100000, -100000, 2**31 - 1]))
     with ThreadPoolExecutor(16) as ex:
-        res = [x for x in ex.map(one, jobs) if x]
+        res = [x for x in ex.map(one, jobs) if x] + [x for x in ex.map(one_x, xjobs) if x]
     shutil.rmtree(d, ignore_errors=True)
-    return {"enum_name_defaults_checked": len(jobs)}, res
+    return {"enum_name_defaults_checked": len(jobs) + len(xjobs)}, res
 
 
 def run(ctx):
